@@ -156,14 +156,29 @@ Section Inputs.
     now rewrite E.
   Qed.
 
-  (* a required input that does not resolve is an error; an optional one is bound to its default
+  (* a required input that matches no task is an error; an optional one is bound to its default
      and creates no edge *)
   Theorem resolve_one_missing ns names acc d n0 e :
     (match i_ref d with inl s => inl s | inr k => match cls classes k with inl c => inl (c_slug c) | inr e => inr e end end) = inl n0 ->
     dhas (prefixed ns n0) acc = false ->
-    find_task_full_name false (prefixed ns n0) names = inr e ->
+    find_task_full_name false (prefixed ns n0) names = inr e -> e <> EAmbiguous ->
     resolve_one classes ns names acc d =
     if i_required d then inr EMissingInput else inl (dset (prefixed ns n0) (inr (i_default d)) acc).
+  Proof.
+    intros Hn Hd Hf He. unfold resolve_one. cbv zeta.
+    destruct (i_ref d) as [s|k].
+    - injection Hn as <-. rewrite Hd, Hf. destruct e; try reflexivity. now elim He.
+    - destruct (cls classes k) as [c|e0]; [|discriminate]. injection Hn as <-. rewrite Hd, Hf.
+      destruct e; try reflexivity. now elim He.
+  Qed.
+
+  (* an input whose name matches several tasks, none of them the less-nested form of the others, is an
+     error also when the input is optional: the default stands for an absent task only *)
+  Theorem resolve_one_ambiguous ns names acc d n0 :
+    (match i_ref d with inl s => inl s | inr k => match cls classes k with inl c => inl (c_slug c) | inr e => inr e end end) = inl n0 ->
+    dhas (prefixed ns n0) acc = false ->
+    find_task_full_name false (prefixed ns n0) names = inr EAmbiguous ->
+    resolve_one classes ns names acc d = inr EAmbiguous.
   Proof.
     intros Hn Hd Hf. unfold resolve_one. cbv zeta.
     destruct (i_ref d) as [s|k].
